@@ -30,7 +30,8 @@ AttrPool == <<
   AFn("foo", <<EInt(NumInt(0 - 5)), EStr("a \"quoted\" string"), EId("bar")>>), AFn("empty", <<>>),
   AAs("doc", EStr(" a doc line")), AAs("key", EId("value")), AAs("n", EInt(Num("i64min", 0))),
   AFn("calling_convention", <<EStr("thiscall")>>), AId("base"), AAs("doc", EStr("")),
-  AFn("index", <<EInt(Num("i64max", 0))>>), AFn("two", <<EId("x"), EId("y")>>) >>
+  AFn("index", <<EInt(Num("i64max", 0))>>), AFn("two", <<EId("x"), EId("y")>>),
+  AAs("doc", EStr(" trailing blanks  ")), AFn("calling_convention", <<EStr("cdecl ")>>), AAs("doc", EStr("   ")) >>
 
 TypePool == <<
   TNm("u32"), TCPtr(TNm("T")), TMPtr(TCPtr(TNm("u8"))), TArr(TNm("u8"), 16),
